@@ -37,7 +37,7 @@ import (
 )
 
 type c16Op struct {
-	Kind     string `json:"kind"` // raw frame ping settings ack open prioopen openreset rst wu cont contx data prio pupd trailers bigopen goaway
+	Kind     string `json:"kind"` // raw frame ping settings ack open prioopen openreset rst wu cont contx padprio data prio pupd trailers bigopen goaway
 	N        int    `json:"n,omitempty"`
 	K        int    `json:"k,omitempty"`
 	V        uint32 `json:"v,omitempty"`
@@ -261,7 +261,7 @@ func c16Gen(t *rapid.T) c16Case {
 	switch mode {
 	case 1:
 		kinds = []string{"frame", "frame", "raw", "ping", "settings", "ack", "open", "open", "open", "open", "open", "open", "openreset",
-			"rst", "rst", "rst", "wu", "wu", "wu", "cont", "data", "data", "prio", "prio", "prioopen", "prioopen", "pupd", "pupd", "trailers", "trailers", "bigopen", "contx", "contx", "goaway"}
+			"rst", "rst", "rst", "wu", "wu", "wu", "cont", "data", "data", "prio", "prio", "prioopen", "prioopen", "pupd", "pupd", "trailers", "trailers", "bigopen", "contx", "contx", "padprio", "goaway"}
 	case 2:
 		kinds = []string{"ping", "ping", "settings", "settings", "ack", "open", "open", "openreset", "openreset", "rst", "rst", "wu", "wu", "cont", "cont", "data", "prio", "prioopen", "frame"}
 	}
@@ -309,6 +309,11 @@ func c16Gen(t *rapid.T) c16Case {
 			o.K = k.Draw(t, "k")
 			o.V = uint32(rapid.IntRange(0, 4).Draw(t, "variant"))
 			o.End = rapid.IntRange(0, 5).Draw(t, "end") != 0
+		case "padprio": // HEADERS with PADDED and PRIORITY whose pad length is near the size of what follows it
+			o.N = 1
+			o.Path = path.Draw(t, "path")
+			o.V = uint32(rapid.IntRange(0, 12).Draw(t, "padDelta")) // pad length = len(fragment) + V - 6
+			o.End = rapid.Bool().Draw(t, "end")
 		case "contx": // a header block interrupted by another frame (RFC 9113 6.10: connection error)
 			o.N = rapid.IntRange(0, 2).Draw(t, "n") // CONTINUATION frames before the interloper
 			o.Path = path.Draw(t, "path")
@@ -666,6 +671,26 @@ func c16Run(c c16Case, r *vp.Rec) (err error) {
 			for i := 0; i < n; i++ {
 				b = c16Frame(b, c16TypeHeaders, fl, newID(), blk, 0)
 			}
+		case "padprio":
+			blk := c16Req(o.Path)
+			pad := len(blk) + int(o.V) - 6
+			if pad < 0 {
+				pad = 0
+			}
+			if pad > 255 {
+				pad = 255
+			}
+			pl := append([]byte{byte(pad)}, 0, 0, 0, 0, 16) // pad length, stream dependency 0, weight
+			pl = append(pl, blk...)
+			// the padding itself is present only when it fits the usual way round
+			if int(o.V) <= 6 {
+				pl = append(pl, make([]byte, pad)...)
+			}
+			fl := uint8(0x08 | 0x20 | c16EndHeaders)
+			if o.End {
+				fl |= c16EndStream
+			}
+			b = c16Frame(b, c16TypeHeaders, fl, newID(), pl, 0)
 		case "contx":
 			id := newID()
 			blk := c16Req(o.Path)
